@@ -38,7 +38,8 @@ RULE = ("(UPGrad | DualProj) x pref vector (none, distinct, with a zero entry, r
         "float64 spec Gramian + active-set enumeration.  distinct = (aggregator spec, matrix spec); non-trivial = "
         "m >= 2, s >= norm_eps and some pair of rows has a negative inner product (the projection is not J^T u), "
         "or a non-zero matrix in the consequence clauses nonconflict / small_sigma")
-BOUNDS = "m <= 6, n <= 8; reg_eps >= 1e-6 (float32), >= 1e-10 (float64); norm_eps in 1e-8..1e-1"
+BOUNDS = ("m <= 6, n <= 8; reg_eps >= 1e-6 (float32), >= 1e-10 (float64); norm_eps in 1e-8..1e-1 (1e-30 in the extreme-scale "
+          "float32 family: entries 1e19.5..1e30 and 1e-26..1e-20)")
 EXHAUSTIVE = "thorough: all 3^4 + 3^6 ternary 2x2, 2x3 and 3x2 matrices for both aggregators with norm_eps != reg_eps"
 
 EPS_PAIRS = [(1e-4, 1e-4), (1e-4, 1e-2), (1e-2, 1e-4), (1e-6, 1e-3), (1e-3, 1e-6), (1e-1, 1e-5), (1e-8, 1e-1)]
@@ -91,6 +92,19 @@ def cases(tier, seed, focus=None):
         out.append(_case(rng, kind=rng.choice(["antiparallel", "stationary", "gauss", "ternary"]),
                          m=rng.randint(2, 6), eps=rng.choice(EPS_PAIRS[1:]),
                          pref=rng.choice(["distinct", "withzero", {"rand": i}])))
+    # extreme scales in float32: the SQUARES of the singular values leave the float32 range although the matrix, its
+    # normalised Gramian and the result do not (s >= 1.9e19), or become subnormal (s <= 1e-19, norm_eps below s)
+    rng_x = random.Random(30700 + seed)
+    for i in range(60 if tier == "quick" else 1500):
+        big = i % 2 == 0
+        c = _case(rng_x, kind=rng_x.choice(["antiparallel", "stationary", "gauss", "gauss", "rowscales"]), m=rng_x.randint(2, 5),
+                  dtype="float32", eps=(1e-4, 1e-4) if big else (1e-30, rng_x.choice([1e-4, 1e-2])),
+                  pref=rng_x.choice([None, None, "distinct"]))
+        c["mat"].pop("rel_sigma", None)
+        c["mat"]["scale"] = 10.0 ** (rng_x.uniform(19.5, 30.0) if big else rng_x.uniform(-26.0, -20.0))
+        if c["mat"]["kind"] == "rowscales":
+            c["mat"]["decades"] = 6
+        out.append(c)
     if tier == "thorough":
         for (m, n) in [(2, 2), (2, 3), (3, 2)]:
             for code in range(3 ** (m * n)):
@@ -160,6 +174,9 @@ def run_case(case):
     except Exception as ex:
         return fail("C03.kkt", f"{name} raised {type(ex).__name__}: {str(ex)[:150]}", sig, nonzero,
                     observed="exception", expected="projection", matrix=small(J))
+    if not (np.isfinite(x).all() and np.isfinite(w).all()):  # (NaN compares False with every tolerance below)
+        return fail("C03.kkt", f"{name}: non-finite output/weights for a finite matrix (s={s:.3e}, norm_eps={ne:g}, reg_eps={reg:g})",
+                    sig, nonzero, small(x), "finite projection", weights=small(w), matrix=small(J))
     R = float(np.linalg.norm(J64, axis=1).max()) if m else 0.0
     comb = lambda w1: 8.0 * (m + 2) * e * w1 * R  # noqa: E731  (cast of w and m-term dot products)
     xu = u @ J64
